@@ -110,7 +110,15 @@ class Run:
                 real.kind = so.kind
                 self.obls[sid] = real
         if isinstance(self.obls[oid], StubObligation):
-            raise RuntimeError(f"re-generation of {oid} did not reproduce the obligation (non-deterministic generation)")
+            # the path signature was not reproduced (in-process feasibility checks have a time limit, so path pruning can differ
+            # under load): keep the verdict, rebuild only what a replay needs - the case's symbolic inputs
+            from .engine import Fresh
+
+            F = Fresh()
+            F.side = []
+            argsd, _ = o.case.args(F)
+            self.obls[oid] = Obligation(oid, [], z3.BoolVal(False), o.kind, o.func, line=o.line, inputs=dict(argsd), meta={"case": o.case})
+            self.notes.append(f"{oid}: terms not re-generated identically; replay uses the case inputs only")
         return self.obls[oid]
 
     def _gen_parallel(self, entry, cases, workers):
